@@ -20,6 +20,8 @@ def main():
         what = what.replace('|', '/')[:130]
         if 'VIOLATION' in res and 'no-failing-input-found' in res:
             r = 'reported, no-failing-input-found'; n_nf += 1
+            if meta.get('status'):
+                r += ' — ' + meta['status']
         elif 'VIOLATION' in res:
             r = 'reported, concrete failing input'; n_conc += 1
         else:
